@@ -207,6 +207,24 @@ pub fn scenarios(tier: &str) -> Vec<Scenario> {
         slash_checked(&mut w, 0, PSel::Fixed([E18 / 2, E18 / 3, E18 / 4 * 3][choose(3)]), false);
         finish(&mut w);
     }));
+    v.push(Scenario::new("slash_with_only_pending_unbondings", &["slash_applied", "unbonding_paid", "end"], || {
+        // found missing by seed C16b: every delegator of the validator has fully undelegated; the
+        // pending unbondings must still be scaled
+        let mut w = Stk::new(Cfg::default());
+        let a = sym_u128("all", 1, AMT);
+        w.given_amounts.push_back(a);
+        w.given_amounts.push_back(a);
+        for op in [Op::Delegate { d: 0, v: 0 }, Op::Undelegate { d: 0, v: 0 }, Op::Delegate { d: 1, v: 1 }, Op::Advance { dt: DtSel::Fixed(30) }] {
+            if !w.apply(&op, AMT) {
+                return;
+            }
+        }
+        if w.unb.len() != 1 {
+            cut("setup undelegation failed");
+        }
+        slash_checked(&mut w, 0, PSel::Boundary, true);
+        finish(&mut w);
+    }));
     if tier == "thorough" {
         v.push(Scenario::new("single_slash_symbolic_fraction", &["slash_applied", "rejected_above_one", "end"], || {
             let mut w = Stk::new(Cfg::default());
